@@ -326,7 +326,7 @@ TRANSFORMS = [t_header_case, t_header_spacing, t_col_alias, t_delimiter, t_type_
 
 def all_bases(tier):
     out = [(f"rich:{i}", w) for i, w in enumerate(RICH)]
-    out += base_forms(tier)
+    out += [(n, w) for n, w in base_forms(tier) if "survey" in w]  # (C12's survey-less workbook has nothing to re-spell)
     return out
 
 
